@@ -208,6 +208,9 @@ class UnitsSerializer(Serializer):
             # unit whose name merely starts with 'nan', like 'nanometer')
             if data == 'nan' or data.startswith('nan '):
                 unit_str = data[len('nan'):].strip()
+                if unit_str.startswith('/'):
+                    # purely reciprocal units print as 'nan / second'
+                    unit_str = '1 ' + unit_str
                 unit_data = math.nan * units(unit_str)
             else:
                 unit_data = units(data)
